@@ -164,15 +164,15 @@ var scratchRoot = func() string {
 // obs is what the checker sees of the pool after an operation.
 type obs struct {
 	// public API
-	P, Q       [NS][]*token // Content(): pending / queued per sender, in the order returned
-	P2         [NS][]*token // Pending()
-	foreign    string       // anything in Content()/Pending() that is not a known token under its own sender
-	locals     [NS]bool     // Locals()
-	gasPrice   int64        // GasPrice()
-	nonce      [NS]uint64   // Nonce(addr)
-	statP      int
-	statQ      int
-	cs         chainState
+	P, Q     [NS][]*token // Content(): pending / queued per sender, in the order returned
+	P2       [NS][]*token // Pending()
+	foreign  string       // anything in Content()/Pending() that is not a known token under its own sender
+	locals   [NS]bool     // Locals()
+	gasPrice int64        // GasPrice()
+	nonce    [NS]uint64   // Nonce(addr)
+	statP    int
+	statQ    int
+	cs       chainState
 	// injected read-only view
 	v         *tx_pool.VerifC17View
 	beatOrder []int
